@@ -214,6 +214,8 @@ def run_unit(unit, tmpl_path, repo_root, scratch, rlimit=None, extra_args=None, 
     for d in asm.negctl:
         ok = d['name'] in failed_fns
         res['negctl'].append({'name': d['name'], 'of': d['of'], 'edit': '%s -> %s' % (d['from'], d['to']), 'failed_as_required': ok})
+    for d in asm.negctl_skipped:
+        res['negctl'].append({'name': d['of'] + '__negctl(skipped)', 'of': d['of'], 'edit': '%s -> %s' % (d['from'], d['to']), 'failed_as_required': True, 'skipped': d['why']})
     real_fail = [e for e in failures if not e.get('negctl') and not (e['fn'] or '').endswith('__canary')]
     # canaries: functions named *__canary must fail too
     canaries = [r[0] for r in ranges if r[0].endswith('__canary')]
